@@ -12,9 +12,18 @@ from sim import observe, worldgen
 def write_world_file(world, path, variant=0, *, raw_to_netcdf=None):
     """Harness-side write of a world to disk with plain xarray (never emsarray)."""
     ds = world.dataset(variant)
+    style = world.spec.get('file_fill_style')
+    geom = set(world.geometry_names())
     for name, var in ds.variables.items():
-        if '_FillValue' not in var.attrs and '_FillValue' not in var.encoding:
-            var.encoding['_FillValue'] = None
+        if '_FillValue' in var.attrs or '_FillValue' in var.encoding:
+            continue
+        if style == 'xarray_default' and var.dtype.kind == 'f' and name not in world.vars:
+            continue          # written the way plain xarray does: float coordinates get _FillValue = NaN
+        if style == 'hole_fill' and world.conv != 'ugrid' and world.spec.get('materialise') != 'file_raw' \
+                and name in geom and var.dtype.kind == 'f' and numpy.isnan(var.values).any():
+            var.encoding['_FillValue'] = -999.0      # holes marked on disk with a fill value instead of NaN
+            continue
+        var.encoding['_FillValue'] = None
     if raw_to_netcdf is not None:
         raw_to_netcdf(ds, path)
     else:
@@ -94,6 +103,13 @@ def decode_missing(values, attrs, encoding=None):
                     continue
                 if not numpy.isnan(fvf):
                     out = numpy.where(arr == arr.dtype.type(fvf) if arr.dtype.kind in 'iuf' else False, numpy.nan, out)
+    # a variable still in its packed (undecoded) form carries scale_factor / add_offset as attributes
+    a = attrs or {}
+    if 'scale_factor' in a or 'add_offset' in a:
+        def num(x, default):
+            x = a.get(x, default)
+            return float(x[1] if isinstance(x, list) and len(x) == 2 and isinstance(x[0], str) else x)
+        out = out * num('scale_factor', 1.0) + num('add_offset', 0.0)
     return out
 
 
